@@ -69,6 +69,11 @@ def check(model: Model, rep: Report, tier: str):
         _i3(model, rep)
     with rep.isolated():
         _i4(model, rep)
+    from .c01 import r13
+    from .common import share_rule
+    with rep.isolated():
+        share_rule(rep, model, r13, "C19.I5", "order-preserving de-duplication of channel identifiers keeps every element: the hash container behind unique_in_order only "
+                   "unifies what hashes alike, and ChannelIdentifier's hash separates the channels of a qubit, so the ALL identifier survives next to a specific one (= C01.R13)")
 
 
 # ----------------------------------------------------------------------------------------------
